@@ -185,7 +185,11 @@ def gen_cfa_program(rng, caf, daf, cfa_reg, saved, n):
             else:
                 out += b'\x05' + uleb(r) + uleb(off)
         elif k < 0.76:
-            out += b'\x0d' + uleb(rng.choice(saved))
+            if cfa_expr:        # reached when no register is left to save: still only a full definition is valid
+                out += b'\x0c' + uleb(cfa_reg) + uleb(cfa_off)
+                cfa_expr = False
+            else:
+                out += b'\x0d' + uleb(rng.choice(saved))
         elif k < 0.78:
             out += b'\x0c' + uleb(cfa_reg) + uleb(cfa_off)
             cfa_expr = False
